@@ -13,7 +13,7 @@
     that gets decoded is shorter than 2^64 bytes. *)
 From Coq Require Import List ZArith Bool Sorted Permutation.
 From V Require Import lib.Verdict lib.C11_DagPb model.M_C11
-  proofs.P_C11_sort proofs.P_C11_codec proofs.P_C11.
+  proofs.P_C11_sort proofs.P_C11_codec proofs.P_C11 proofs.P_C11_multi.
 Import ListNotations.
 Open Scope Z_scope.
 
@@ -86,6 +86,23 @@ Theorem C11_order_independent_hist : forall (H : Z -> bytes -> Z) d l1 l2,
 Proof. exact order_independent_hist. Qed.
 Print Assumptions C11_order_independent_hist.
 
+(** Families of nodes related by Copy() / UpdateNodeLink(): for EVERY history over a
+    growing family (ops on any node, forks from any node, reads of any node anywhere),
+    each ProtoNode with its caches answers like the specification [gmrun (astep H)], in
+    which every node has its own state: no operation on one node changes what another
+    node answers ([C11_family_independent]). *)
+Theorem C11_family_refines : forall (H : Z -> bytes -> Z) d0 ms,
+  mhist_ok [afresh d0] ms ->
+  snd (gmrun (step flags_off H) [fresh d0] ms) = snd (gmrun (astep H) [afresh d0] ms).
+Proof. exact multi_refines. Qed.
+Print Assumptions C11_family_refines.
+
+Theorem C11_family_independent : forall (H : Z -> bytes -> Z) sts m j,
+  j <> fst (mtarget m) -> (j < length sts)%nat ->
+  nth_error (fst (gmstep (astep H) sts m)) j = nth_error sts j.
+Proof. exact family_independent. Qed.
+Print Assumptions C11_family_independent.
+
 (** The varint encoder's explicit fuel is never what stops it. *)
 Theorem C11_varint_total : forall n r, 0 <= n < two64 -> uvarint (varint n ++ r) = Some (n, r).
 Proof. exact uvarint_varint. Qed.
@@ -125,6 +142,12 @@ Example C11_ex_bytes :
   encode (sort_links [mkLink [97] 300 ex_cid_short]) (Some [104; 105]) =
   [18; 13; 10; 5; 1; 85; 0; 1; 120; 18; 1; 97; 24; 172; 2; 10; 2; 104; 105].
 Proof. vm_compute. reflexivity. Qed.
+
+Example C11_ex_family :
+  mhist_ok [afresh None]
+    [MOp 0 (OAdd [97] 1 ex_cid_short); MOp 0 (OAdd [98] 2 ex_cid_short); MOp 0 RCid; MFork 0;
+     MOp 1 (ORemove [97]); MOp 0 RLinks; MOp 0 RDecode; MForkUpdate 0 [97] 5 ex_cid_v0; MOp 2 RLinks; MOp 0 RDecode].
+Proof. vm_compute. intuition discriminate. Qed.
 
 Example C11_ex_stable :
   map l_size (sort_links [mkLink [98] 1 ex_cid_short; mkLink [97] 2 ex_cid_short; mkLink [98] 3 ex_cid_short;
